@@ -206,6 +206,88 @@ fn val_nodes(e: &program_structure::ir::Expression, stmt: usize, out: &mut Vec<S
     }
 }
 
+fn deg_nodes(e: &program_structure::ir::Expression, stmt: usize, out: &mut Vec<String>) {
+    use program_structure::ir::degree_meta::DegreeMeta;
+    use program_structure::ir::{AccessType, Expression::*};
+    let kind = match e {
+        Variable { .. } => "Variable",
+        Number(..) => "Number",
+        InfixOp { .. } => "InfixOp",
+        PrefixOp { .. } => "PrefixOp",
+        SwitchOp { .. } => "SwitchOp",
+        Call { .. } => "Call",
+        InlineArray { .. } => "InlineArray",
+        Access { .. } => "Access",
+        Update { .. } => "Update",
+        Phi { .. } => "Phi",
+    };
+    if let Some(range) = e.degree() {
+        out.push(format!("[{}, \"{}\", \"{:?}\"]", stmt, kind, range.end()));
+    }
+    match e {
+        InfixOp { lhe, rhe, .. } => {
+            deg_nodes(lhe, stmt, out);
+            deg_nodes(rhe, stmt, out);
+        }
+        PrefixOp { rhe, .. } => deg_nodes(rhe, stmt, out),
+        SwitchOp { cond, if_true, if_false, .. } => {
+            deg_nodes(cond, stmt, out);
+            deg_nodes(if_true, stmt, out);
+            deg_nodes(if_false, stmt, out);
+        }
+        Call { args, .. } => args.iter().for_each(|a| deg_nodes(a, stmt, out)),
+        InlineArray { values, .. } => values.iter().for_each(|a| deg_nodes(a, stmt, out)),
+        Access { access, .. } => {
+            for a in access {
+                if let AccessType::ArrayAccess(i) = a {
+                    deg_nodes(i, stmt, out);
+                }
+            }
+        }
+        Update { access, rhe, .. } => {
+            for a in access {
+                if let AccessType::ArrayAccess(i) = a {
+                    deg_nodes(i, stmt, out);
+                }
+            }
+            deg_nodes(rhe, stmt, out);
+        }
+        _ => {}
+    }
+}
+
+/// degdump <hex source of one definition> -> JSON list of [statement offset, node kind, upper degree bound]
+fn deg_dump(src: &str) -> String {
+    use program_structure::ir::Statement;
+    let def = match parse_definition(src) {
+        Some(d) => d,
+        None => return "PARSEERR".to_string(),
+    };
+    let mut reports = ReportCollection::new();
+    let cfg = match def.into_cfg(&Curve::Bn254, &mut reports) {
+        Ok(cfg) => cfg,
+        Err(e) => return format!("LIFTERR {}", e),
+    };
+    let cfg = match cfg.into_ssa() {
+        Ok(cfg) => cfg,
+        Err(_) => return "SSAERR".to_string(),
+    };
+    let mut out = Vec::new();
+    for b in cfg.iter() {
+        for s in b.iter() {
+            let id = s.meta().start();
+            match s {
+                Statement::Substitution { rhe, .. } => deg_nodes(rhe, id, &mut out),
+                Statement::IfThenElse { cond, .. } => deg_nodes(cond, id, &mut out),
+                Statement::Return { value, .. } => deg_nodes(value, id, &mut out),
+                Statement::Assert { arg, .. } => deg_nodes(arg, id, &mut out),
+                _ => {}
+            }
+        }
+    }
+    format!("[{}]", out.join(", "))
+}
+
 /// valdump <hex source of one definition> -> JSON list of [statement offset, node kind, value] for every expression node the real
 /// pipeline attached a constant to (after SSA and value propagation)
 fn val_dump(src: &str) -> String {
@@ -381,6 +463,10 @@ fn main() {
         }
         let r = panic::catch_unwind(|| match w[0] {
             "analyzefile" => analyze_file(w[1], &w[2..]),
+            "degdump" => match String::from_utf8(unhex(w.get(1).unwrap_or(&""))) {
+                Ok(s) => deg_dump(&s),
+                Err(_) => "BADUTF8".to_string(),
+            },
             "valdump" => match String::from_utf8(unhex(w.get(1).unwrap_or(&""))) {
                 Ok(s) => val_dump(&s),
                 Err(_) => "BADUTF8".to_string(),
